@@ -2,10 +2,10 @@
 Vocabulary of the C01 theorems of `Props/C01i.lean`: the sub-grammars of `Doc` that extend `LinkDoc`
 (`Spec/DocFlat2.lean`) by inline IMAGES in one-line paragraphs (`ImgDoc`), by inline LINKS in ATX / Setext headings
 (`LinkHDoc`), both together, with images in headings as well (`LinkImgDoc`), and finally links and images in the
-same line (`MixedDoc`).
+same line (`MixedDoc`), also in paragraphs of several lines with hard breaks (`MixedBrDoc`).
 
 Common domain restrictions (as in `Spec/DocFlat2.lean`): no `<` inside code; destinations without `_` and `&`
-(`simpleDest`); a paragraph or heading with links or images is ONE line (no hard break in it).  In `ImgDoc`, `LinkHDoc`
+(`simpleDest`); up to `MixedDoc` a paragraph or heading with links or images is ONE line.  In `ImgDoc`, `LinkHDoc`
 and `LinkImgDoc` a line has links or images, not both; `MixedDoc` lifts that (the link pattern runs before the image
 pattern: the stash is not in document order then).
 -/
@@ -87,5 +87,37 @@ def isMixedBlock : Block → Bool
 
 /-- contains `LinkImgDoc`: links and images may stand in the same paragraph or heading -/
 def MixedDoc (d : Doc) : Bool := d.all isMixedBlock
+
+/-! ### … and hard breaks in the same paragraph -/
+
+/-- a hard break, or an item of `isLinkImgItem` -/
+def isLinkImgBrItem : Inline → Bool
+  | .br => true
+  | x => isLinkImgItem x
+
+/-- a link that starts a LINE of the paragraph — the first one, or the line after a hard break — has no bracket in its
+    printed text: `[a]: b](u)` at the start of any line of a paragraph is a reference definition -/
+def lineLinksOKAux : Bool → List Inline → Bool
+  | _, [] => true
+  | atStart, x :: r =>
+    (match x with
+     | .link c _ _ => !atStart || c.all noBracketItem
+     | _ => true) && lineLinksOKAux (isBr x) r
+
+def lineLinksOK (c : List Inline) : Bool := lineLinksOKAux true c
+
+/-- several lines of words, escapes, code spans, emphasised words, inline links and inline images, in any order, with
+    hard breaks between the lines -/
+def mixedBrRun (c : List Inline) : Bool := c.all isLinkImgBrItem && noBsBeforeCode c && lineLinksOK c
+
+/-- as `isMixedBlock`, and a paragraph may be of `mixedBrRun` -/
+def isMixedBrBlock : Block → Bool
+  | .para c => brRun c || mixedRun c || mixedBrRun c
+  | .atx _ c => deep2Run c || mixedRunH c
+  | .setext _ c => deep2Run c || mixedRunH c
+  | b => isDeep2Block b
+
+/-- contains `MixedDoc`: a paragraph with links and images may have several lines -/
+def MixedBrDoc (d : Doc) : Bool := d.all isMixedBrBlock
 
 end MdVerif.DocSpec
